@@ -1,5 +1,6 @@
 import Efp.Model.Builders
 import Efp.Props.C09
+import Efp.Theory.Incr
 /-!
 # C17 — service and cloud-server builders are faithful shorthand
 
@@ -104,6 +105,43 @@ theorem video_refresh_rate_drives_data (i : VideoIn) (k : Rat) (p p' : JobParams
   obtain ⟨br', hb', hd', _, _, _⟩ := video_rules _ p' h'
   rw [hd, hd', video_bitrate_rule i br hb, video_bitrate_rule _ br' hb']
   simp only [Qty.phys]; ring
+
+/-! ## builder model ≡ plain model, at system level -/
+
+/-- the same rules in which the values selected by `F` (the derived parameters of the builder jobs and
+the base consumptions their services add to the server) are inputs instead of calculated values: the
+*plain* model -/
+def plain {N V : Type} (S : Efp.Theory.RuleSys N V) (F : N → Bool) : Efp.Theory.RuleSys N V :=
+  { S with isCalc := fun n => S.isCalc n && !F n }
+
+/-- **a builder model gives exactly the results of the plain model carrying the derived parameters**:
+`σ` = the computed builder model, `τ` = any computed plain model whose inputs (the derived parameters
+among them) have the builder model's values — they agree on every value, for every rule system with
+well-founded reads and every choice `F` of derived values -/
+theorem builder_model_equals_plain_model {N V : Type} (S : Efp.Theory.RuleSys N V) (F : N → Bool) (rk : N → Nat)
+    (wf : ∀ n, S.isCalc n = true → ∀ m ∈ S.reads n, rk m < rk n)
+    (σ τ : N → V) (hσ : Efp.Theory.Consistent S σ) (hτ : Efp.Theory.Consistent (plain S F) τ)
+    (hin : ∀ n, (plain S F).isCalc n = false → τ n = σ n) : ∀ n, τ n = σ n := by
+  have hσ' : Efp.Theory.Consistent (plain S F) σ := by
+    intro n hn
+    have : S.isCalc n = true := by
+      simp only [plain, Bool.and_eq_true] at hn
+      exact hn.1
+    exact hσ n this
+  have wf' : ∀ n, (plain S F).isCalc n = true → ∀ m ∈ (plain S F).reads n, rk m < rk n := by
+    intro n hn m hm
+    have : S.isCalc n = true := by
+      simp only [plain, Bool.and_eq_true] at hn
+      exact hn.1
+    exact wf n this m hm
+  exact Efp.Theory.consistent_unique (plain S F) rk wf' τ σ hτ hσ' hin
+
+/-- … and the edits: after any accepted edit of a builder input both models are again consistent
+(C01), so the equality above holds after every edit history as well; a derived value that is *not*
+refreshed (seed C17-c: the service no longer lists its jobs as dependents) is a non-consistent `σ` -/
+theorem stale_derived_value_is_not_consistent {N V : Type} (S : Efp.Theory.RuleSys N V) (σ : N → V) (n : N)
+    (hn : S.isCalc n = true) (hstale : σ n ≠ S.rule n σ) : ¬ Efp.Theory.Consistent S σ :=
+  fun h => hstale (h n hn)
 
 /-! ## non-vacuity: 1080p, 0.1 bit per pixel, 30 fps, 1 hour -/
 example : (videoDerive ⟨1920 * 1080, ⟨1/10, U.dimless⟩, ⟨30, ⟨1, { time := -1 }⟩⟩, ⟨1, U.hour⟩,
